@@ -41,6 +41,7 @@ Variables lower upper : str -> str.
 Variable parse_tree : mapper -> tz -> res (option T * mapper * tz).
 Variable set_label : T -> option str -> T.
 Variable add_comments : T -> list str -> T.
+Variable vl : bool.
 Variable c : nscfg.
 Variable et : bool.
 
@@ -108,12 +109,12 @@ Qed.
 Lemma parse_title_suf : forall z t z', parse_title upper z = Ok (t, z') -> suf (z_toks z') (z_toks z).
 Proof. intros z t z' H. unfold parse_title in H. inv_ok. fwd. suf_chain. Qed.
 
-Lemma link_loop_suf : forall fuel z v r z', link_loop upper fuel z v = Ok (r, z') -> suf (z_toks z') (z_toks z).
+Lemma link_loop_suf : forall fuel z v r z', link_loop upper vl fuel z v = Ok (r, z') -> suf (z_toks z') (z_toks z).
 Proof.
   induction fuel as [|f IH]; intros z v r z' H; simpl in H; [discriminate|].
   inv_ok; try apply suf_refl; apply IH in H; fwd; suf_chain.
 Qed.
-Lemma parse_link_suf : forall fuel z r z', parse_link upper fuel z = Ok (r, z') -> suf (z_toks z') (z_toks z).
+Lemma parse_link_suf : forall fuel z r z', parse_link upper vl fuel z = Ok (r, z') -> suf (z_toks z') (z_toks z).
 Proof. intros fuel z r z' H. unfold parse_link in H. inv_ok. apply link_loop_suf in H. fwd. suf_chain. Qed.
 
 Lemma dimensions_loop_suf : forall fuel z n r z',
